@@ -241,6 +241,15 @@ func (w *World) nf(v ssa.Value, depth int) string {
 			if g, ok := x.X.(*ssa.Global); ok {
 				return "global:" + g.Name()
 			}
+			// a local variable kept in memory: assigned once (a captured parameter), or as this path last assigned it
+			if sv := finalCellValue(x); sv != nil {
+				return w.nf(sv, depth+1)
+			}
+			if nfPath != nil && curPath != nil {
+				if sv, _ := cellLoadOnPath(x, len(nfPath)-1, nfPath); sv != nil {
+					return w.nf(sv, depth+1)
+				}
+			}
 			if fp := fieldPath(x); len(fp) > 0 {
 				root := rootOf(x)
 				// a local that is a one-time copy of a struct (name := elt.XMLName): read through the copy
